@@ -1044,6 +1044,43 @@ func (d *c11Driver) doReport(h int64) c11Step {
 		fmt.Sprintf("ReportConflictingVotes(height %d) -> expected ev%d", h, i)}
 }
 
+// consensus reports the vote pair of an evidence that is already in the table (whatever its
+// state: pending, committed, expired, never seen by the pool); i must be a genuine
+// duplicate-vote evidence, so that the evidence the pool forms from the votes is the item itself
+func (d *c11Driver) doReportOf(i int) c11Step {
+	e := d.tbl[i].ev.(*types.DuplicateVoteEvidence)
+	v1, v2 := c11CopyVote(e.VoteA), c11CopyVote(e.VoteB)
+	if d.c.r.Bool() {
+		v1, v2 = v2, v1
+	}
+	h := v1.Height
+	exp := types.NewDuplicateVoteEvidence(v1, v2, d.c.times[h], d.c.vals[h])
+	j := d.addTbl(c11Ev{exp, "dup-from-consensus"})
+	state := "unknown to the pool"
+	switch {
+	case d.pool.isPending(e):
+		state = "pending"
+	case d.pool.isCommitted(e):
+		state = "committed"
+	}
+	d.pool.ReportConflictingVotes(v1, v2)
+	d.cs.Count("op:report-existing-"+strings.ReplaceAll(state, " ", "-"), 1)
+	return c11Step{vg.App("XReport", d.c.voteTerm(v1), d.c.voteTerm(v2), vg.Nat(j)),
+		fmt.Sprintf("ReportConflictingVotes(votes of ev%d, height %d, %s) -> expected ev%d", i, h, state, j)}
+}
+
+// table items whose votes consensus may report: genuine conflicting votes of a validator of a
+// height of the chain
+func (d *c11Driver) reportable() []int {
+	var l []int
+	for i, e := range d.tbl {
+		if e.kind == "dup-genuine" || e.kind == "dup-from-consensus" {
+			l = append(l, i)
+		}
+	}
+	return l
+}
+
 func (d *c11Driver) doRestart() c11Step {
 	p, err := NewPool(d.evdb, d.c.ss, d.c.bs)
 	if err != nil {
@@ -1194,6 +1231,55 @@ func TestVerifC11Pool(t *testing.T) {
 		}
 	}
 
+	// ---- directed: consensus reports the votes of an evidence again, in every state of that
+	// evidence (pending, twice in a row, in the block being committed, committed, after a restart)
+	for variant := 0; variant < 3; variant++ {
+		id := cs.NextID()
+		if cs.Want(id) {
+			r := root.Fork(uint64(id))
+			var c *c11Chain
+			for k := uint64(0); ; k++ { // age limits that keep the evidence alive through the history
+				c = c11NewChain(r.Fork(k), 3000+uint64(variant)*100+k)
+				if c.params.MaxAgeNumBlocks >= 3 {
+					break
+				}
+			}
+			c.r = r.Fork(99)
+			l0 := int64(2 + variant)
+			c11RunCase(cs, id, "directed-report-again", c, l0, nil, func(d *c11Driver, step func(c11Step)) {
+				h := l0 + 1 // votes of the height being decided
+				if variant == 2 {
+					h = l0
+				}
+				v1, v2, _ := c.conflictingVotes(h)
+				x := d.addTbl(c11Ev{types.NewDuplicateVoteEvidence(v1, v2, c.times[h], c.vals[h]), "dup-genuine"})
+				if variant == 2 {
+					step(d.doAdd(x))
+				}
+				step(d.doReportOf(x))
+				step(d.doReportOf(x)) // twice in a row
+				step(d.doUpdate(l0+1, nil))
+				step(d.doReportOf(x)) // pending
+				step(d.doPending(-1))
+				if variant == 1 {
+					step(d.doReportOf(x)) // in the buffer while the block that commits it is applied
+				}
+				step(d.doUpdate(l0+2, []int{x}))
+				step(d.doReportOf(x)) // committed
+				step(d.doReportOf(x))
+				step(d.doUpdate(l0+3, nil))
+				step(d.doPending(-1))
+				step(d.doCheck([]int{x}))
+				step(d.doReportOf(x))
+				step(d.doRestart()) // the buffer is lost
+				step(d.doReportOf(x))
+				step(d.doUpdate(l0+4, nil))
+				step(d.doPending(-1))
+				step(d.doAdd(x))
+			})
+		}
+	}
+
 	// ---- random histories
 	nh := vg.Scale(160, 12000)
 	for k := 0; k < nh; k++ {
@@ -1284,6 +1370,18 @@ func TestVerifC11Pool(t *testing.T) {
 					}
 					if h > c.n {
 						h = c.n
+					}
+					// ... or once more the votes of an evidence that exists already (pending,
+					// committed, expired or not yet seen), sometimes twice in a row
+					if rr := r.Fork(uint64(5000 + o)); rr.Chance(45) {
+						if rep := d.reportable(); len(rep) > 0 {
+							i := c11Pick(rr, rep)
+							step(d.doReportOf(i))
+							if rr.Chance(30) {
+								step(d.doReportOf(i))
+							}
+							continue
+						}
 					}
 					step(d.doReport(h))
 				case x < 87:
